@@ -58,6 +58,13 @@ class BB10(AA12):
     w: TOpt[int]
 
 
+class BO10(AA10):          # derived from the older of the two compatible vf.aa versions (1.0.0 next to 1.2.0)
+    class Plugin:
+        name = "vf.bo"
+        version = (1, 0, 0)
+    v: TOpt[int]
+
+
 class CC02(BB10):
     class Plugin:
         name = "vf.cc"
@@ -81,13 +88,13 @@ class AUX01(MetadataSchema):
 
 
 STAGE0 = ("vf-base", "1.0.0", [AA10, AA20, DD01, AUX01])
-STAGE1 = ("vf-ext", "0.3.1", [AA12, BB10, CC02])
-CLASSES = {"AA10": AA10, "AA12": AA12, "AA20": AA20, "BB10": BB10, "CC02": CC02, "DD01": DD01, "AUX01": AUX01}
+STAGE1 = ("vf-ext", "0.3.1", [AA12, BB10, CC02, BO10])
+CLASSES = {"AA10": AA10, "AA12": AA12, "AA20": AA20, "BB10": BB10, "CC02": CC02, "DD01": DD01, "AUX01": AUX01, "BO10": BO10}
 # installed schema plugins attached with instances generated from their field types (harness/geninst.py)
 INSTALLED = ["core.bib", "core.dir", "core.imagefile", "core.table", "core.person", "example.matsci.method"]
 for _n in INSTALLED:
     CLASSES["I:" + _n] = schemas[_n]
-NAMES = ["vf.aa", "vf.bb", "vf.cc", "vf.dd", "vf.aux", "core.file"] + INSTALLED
+NAMES = ["vf.aa", "vf.bb", "vf.cc", "vf.dd", "vf.aux", "vf.bo", "core.file"] + INSTALLED
 _inst_pool: Dict[str, List[Dict[str, Any]]] = {}
 INVALID = {"definitely": "not valid", "x": "nan", "@id": {"a": 1}, "columns": "nope", "methodType": {"x": 1}}
 
@@ -112,7 +119,7 @@ def instances(cls_key: str, rng: random.Random) -> Dict[str, Any]:
             objs = geninst.instances(CLASSES[cls_key], random.Random(len(cls_key)), 10)
             _inst_pool[cls_key] = [json.loads(o.json()) for o in objs]
         return rng.choice(_inst_pool[cls_key])
-    s = rng.choice(["x", "äöü ✓", "line\nbreak", "0", " padded "])
+    s = rng.choice(["x", "äöü ✓", "line\nbreak", "0", " padded ", "smile \U0001F600", "\U00020BB7", "1e3", "yes"])
     i = rng.choice([0, 1, -1, 2**40, 7])
     return {
         "AA10": {"x": i, "y": rng.choice([None, s])},
@@ -121,6 +128,7 @@ def instances(cls_key: str, rng: random.Random) -> Dict[str, Any]:
         "BB10": {"x": i, "y": rng.choice([None, s]), "z": rng.choice([None, 0]), "w": rng.choice([None, 0, 9])},
         "CC02": {"x": i, "w": rng.choice([None, 3]), "u": rng.choice([[], [0], [1, 2, 3]])},
         "DD01": {"t": s},
+        "BO10": {"x": i, "y": rng.choice([None, s]), "v": rng.choice([None, 4])},
         "AUX01": {"q": i},
     }[cls_key]
 
@@ -142,19 +150,34 @@ class Env:
         provider: Dict[str, Any] = {}
         jsdig: Dict[str, str] = {}
         aux: List[str] = []
+        pg_mismatch: List[str] = []
         for n in NAMES:
             refs = schemas.versions(n)
             vers[n] = [list(r.version) for r in refs]
             for r in refs:
                 key = f"{n}@{'.'.join(map(str, r.version))}"
                 cls = schemas._get_unsafe(r.name, r.version)
-                parents[key] = [[p.name, list(p.version)] for p in schemas.parent_path(r.name, r.version)]
+                exact = {(str(c_.Plugin.name), tuple(c_.Plugin.version)): c_ for c_ in CLASSES.values()}
+                hcls = exact.get((n, tuple(r.version)), cls)   # (the registry hands out the newest compatible class)
+                # the reference parent chain is read off the class hierarchy (every class in the MRO that is itself
+                # a plugin), independently of what the plugin group computed
+                chain = [c_ for c_ in reversed(hcls.__mro__) if c_.__dict__.get("Plugin") is not None
+                         and hasattr(c_.__dict__["Plugin"], "name") and hasattr(c_.__dict__["Plugin"], "version")]
+                parents[key] = []
+                for c_ in chain:     # (the class handed out by the registry can be a marker subclass of the plugin class)
+                    item = [str(c_.Plugin.name), list(c_.Plugin.version)]
+                    if not parents[key] or parents[key][-1] != item:
+                        parents[key].append(item)
+                pp = [[p.name, list(p.version)] for p in schemas.parent_path(r.name, r.version)]
+                if pp != parents[key]:
+                    pg_mismatch.append(f"{key}: parent_path {pp} but the class chain is {parents[key]}")
                 pk = schemas.provider(r)
                 provider[key] = [str(pk.name), list(pk.version)]
                 jsdig[key] = hashlib.sha1(cls.schema_json().encode()).hexdigest()[:12]
                 if cls.Plugin.auxiliary and n not in aux:
                     aux.append(n)
-        return {"versions": vers, "parents": parents, "provider": provider, "jsdig": jsdig, "aux": aux}
+        return {"versions": vers, "parents": parents, "provider": provider, "jsdig": jsdig, "aux": aux,
+                "pg_mismatch": pg_mismatch}
 
 
 # --------------------------------------------------------------------------------------
